@@ -30,6 +30,13 @@ def family_task(task):
             if g.cfg['arch_version'] >= 7:
                 sct |= 1 << 22
             st['sys']['SCTLR'] = limbs(sct)
+        if opts.get('lanes'):
+            LANE = [0, 1, 0x7F, 0x80, 0xFF, 0x7FFF, 0x8000, 0xFFFF, 0x7F80, 0x807F, 0x00FF, 0xFF00]
+            for r in st['R']:
+                if r != 'PC' and rnd.random() < 0.6:
+                    k = rnd.random()
+                    st['R'][r] = ([rnd.choice(LANE), rnd.choice(LANE)] if k < 0.6 else
+                                  limbs(rnd.choice([0, 1, 0x80000000, 0xFFFFFFFF, 0x7FFFFFFF, 0x10000, 0xFFFF0000, 2, 3, 0x8000, 0x7FFF])))
         if opts.get('data_ptrs'):
             for r in st['R']:
                 if r != 'PC' and rnd.random() < 0.6:
@@ -135,7 +142,26 @@ def pick_br(rnd, cfg):
     return True, G.fill(pat, rnd), name
 
 
-PICKERS = {'dp': pick_dp, 'ls': pick_ls, 'lsm': pick_lsm, 'br': pick_br}
+def pick_media(rnd, cfg):
+    r = rnd.random()
+    if r < 0.5:
+        name, pat = rnd.choice(G.ARM_MEDIA)
+        fixed = {'c': rnd.choice(G.COND_BIAS)}
+        if name == 'par':
+            fixed['p'] = rnd.choice([1, 2, 3, 5, 6, 7])
+            fixed['o'] = rnd.choice([0, 1, 2, 3, 4, 7])
+        if name == 'ext':
+            u, w = rnd.choice([(0, 0), (0, 2), (0, 3), (1, 0), (1, 2), (1, 3)])
+            fixed['u'], fixed['w'] = u, w
+        return False, G.fill(pat, rnd, fixed=fixed, regfields='dnmstalh'), name
+    if r < 0.62:
+        name, pat = rnd.choice(G.T16_MEDIA)
+        return True, G.fill(pat, rnd), name
+    name, pat = rnd.choice(G.T32_MEDIA)
+    return True, G.fill(pat, rnd, regfields='dnmalh'), name
+
+
+PICKERS = {'media': pick_media, 'dp': pick_dp, 'ls': pick_ls, 'lsm': pick_lsm, 'br': pick_br}
 
 
 def run_family(ctx, picker, n_per_group, opts, clause_filter, configs=None, tags_of=None, extra_groups=()):
